@@ -8,7 +8,9 @@ PROPS = {
     'mt': ('margin-top', False), 'ml': ('margin-left', False), 'pl': ('padding-left', False), 'pb': ('padding-bottom', False),
     'fsz': ('font-size', False), 'ti': ('text-indent', False), 'bdw': ('border-width', False), 'bdrs': ('border-radius', False),
     'lh': ('line-height', True), 'z': ('z-index', True), 'op': ('opacity', True), 'fw': ('font-weight', True),
-    'fx': ('flex', True), 'fxg': ('flex-grow', True),
+    'fx': ('flex', True), 'fxg': ('flex-grow', True), 'fxsh': ('flex-shrink', True), 'zm': ('zoom', True),
+    # names that merely BEGIN with (or contain) a unit-less property name take units
+    'fxb': ('flex-basis', False), 'lts': ('letter-spacing', False), 'bdsp': ('border-spacing', False), 'wos': ('word-spacing', False), 'ord': ('order', False),
     'c': ('color', False), 'bd': ('border', False), 'bgc': ('background-color', False), 'bdc': ('border-color', False),
 }
 # user-defined property snippets (passed as `snippets` with every call): custom properties, vendor prefixes, double dashes
